@@ -228,10 +228,20 @@ func runC04(c *core.Ctx) {
 	// ------------------------------------------------------------ post
 	c.Doc("C04.post", "no reply to a Post after the method ran", 30)
 	c.Doc("C04.post-decode-error", "a malformed Post must not be answered either (per generated file)", 4)
+	c.Doc("C04.post-errors", "every Channel implementation answers errors to calls only (a post never gets an Error response, whatever path reports the error)", 3)
 	rulePostNoReply(c, isType, isK(kPost))
 	// the endpoint itself answers only Calls when a queue is full (rule shared with C12)
 	c.Doc("C12.dispatch", "the full-queue error of dispatch is sent for Call messages only (a Post produces no response)", 1)
 	ruleFullQueueError(c, a)
+
+	// ------------------------------------------------------------ serial handling
+	c.Doc("C04.serial", "the messages of one object are handed to it one at a time, each exactly once (mailbox of a service object, queue of a client-side object)", 4)
+	ruleMailboxSerial(c, "C04.serial")
+	if add := c.Func("bus", "clientService", "Add"); add != nil {
+		ruleSerialDrain(c, "C04.serial", add)
+	} else {
+		c.Undecided("C04.serial", "bus.clientService.Add", token.NoPos, "anchor not found")
+	}
 
 	// ------------------------------------------------------------ delivery
 	c.Doc("C04.delivery", "dispatch is the only sender on handler queues; single-shot handlers are removed in the same critical section", 2)
@@ -463,6 +473,56 @@ func fieldOwner(f *types.Var) string {
 // rulePostNoReply: in every generated stub method, SendReply/SendError after
 // the impl call are guarded by Type != Post; SendError before it (decode
 // errors) answering a Post is reported once per generated file.
+// sendErrorOnlyAnswersCalls: every implementation of Channel.SendError in
+// package bus sends (or builds) the error message only across Type == Call.
+// One obligation per implementation is recorded under C04.post-errors.
+func sendErrorOnlyAnswersCalls(c *core.Ctx, isType func(ssa.Value) bool) (all bool, n int, why string) {
+	const rule = "C04.post-errors"
+	all = true
+	kCall := constOf(c, "bus/net", "Call")
+	isCall := func(v ssa.Value) bool { k, ok := core.ConstInt(v); return ok && k == kCall }
+	for _, fn := range srcFuncsOfPkg(c, "bus") {
+		if fn.Parent() != nil || fn.Name() != "SendError" || fn.Signature.Recv() == nil || len(fn.Blocks) == 0 {
+			continue
+		}
+		// a wrapper that only delegates to another Channel's SendError inherits its behaviour
+		sends := 0
+		delegates := 0
+		bad := ""
+		for _, call := range core.Calls(fn) {
+			cc := call.Common()
+			name := ""
+			if cc.IsInvoke() {
+				name = cc.Method.Name()
+			} else if f := cc.StaticCallee(); f != nil {
+				name = f.Name()
+			}
+			switch name {
+			case "SendError":
+				delegates++
+			case "Send", "NewMessage", "NewHeader":
+				sends++
+				if !core.Guarded(fn, call.(ssa.Instruction), core.Eq(isType, isCall)) {
+					bad = "an error answer is built or sent (at " + c.Pos(call.Pos()) + ") without the request having been checked to be a Call: a one-way post (or a reply, an event, a cancel) is answered with an Error message"
+				}
+			}
+		}
+		if sends == 0 && delegates == 0 {
+			continue
+		}
+		n++
+		if bad != "" {
+			all = false
+			why = bad
+		}
+		c.Check(bad == "", rule, core.FuncKey(fn), fn.Pos(), "answers only messages of type Call", bad)
+	}
+	if n == 0 {
+		all = false
+	}
+	return all, n, why
+}
+
 func rulePostNoReply(c *core.Ctx, isType func(ssa.Value) bool, isPost func(ssa.Value) bool) {
 	notPost := core.Ne(isType, isPost)
 	perFile := map[string][]string{}
@@ -506,7 +566,16 @@ func rulePostNoReply(c *core.Ctx, isType func(ssa.Value) bool, isPost func(ssa.V
 		files = append(files, f)
 	}
 	sort.Strings(files)
+	// error answers are built by the Channel implementations: when each of them
+	// refuses to answer anything but a Call, an unconditional SendError in a stub
+	// cannot produce a response to a Post
+	refused, nImpl, why := sendErrorOnlyAnswersCalls(c, isType)
 	for _, f := range files {
+		if refused {
+			c.Pass("C04.post-decode-error", f, filePos[f], fmt.Sprintf("the decode error is handed to Channel.SendError, all %d implementations of which answer calls only", nImpl))
+			continue
+		}
+		_ = why
 		ms := perFile[f]
 		sort.Strings(ms)
 		uniq := ms[:0]
